@@ -420,8 +420,13 @@ def judge_component(ck, c, toks, qlist, qmeta, hist, pybad, updq, updmeta, luq=N
     Every solve is first screened by an untrusted exact multiply-back in Python (pybad collects the failures: those states are
     not sent through the full verified query, a single-row confirmation is sent instead).
     Every ILLfactor_update with a dump before it gives one `upd` query (model update vs the library's next dump)."""
+    class Tok(list):
+        xord = None
     ops, curd = [], None
     for t in toks:
+        if t[0] == "XORD" and curd is None and ops and ops[-1][0] in ("FTRAN", "BTRAN"):
+            ops[-1].xord = t[2:]
+            continue
         if t[0] == "FDUMP":
             curd = [t]
             if len(t) > 1 and t[1] == "none":
@@ -433,9 +438,9 @@ def judge_component(ck, c, toks, qlist, qmeta, hist, pybad, updq, updmeta, luq=N
                 ops.append(("FDUMPBLOCK", "\n".join(" ".join(x) for x in curd)))
                 curd = None
         elif t[0] in ("FACTOR", "FTRAN", "BTRAN", "FUPDX", "FUPDS", "FUPD"):
-            ops.append(t)
+            ops.append(Tok(t))
     it = iter(ops)
-    st = dict(cur=None, claim=None, what="", checks=[], idx=[], nq=0, dump=None, bad=False, pend=None, lu_done=False, nl=0, singinfo=None)
+    st = dict(cur=None, claim=None, what="", checks=[], idx=[], nq=0, dump=None, bad=False, pend=None, lu_done=False, nl=0, singinfo=None, orders=[])
     n0 = len(c.steps[0][1])
     if luq is None:
         luq, lumeta = [], {}
@@ -501,9 +506,27 @@ def judge_component(ck, c, toks, qlist, qmeta, hist, pybad, updq, updmeta, luq=N
     def bump(k):
         hist[k] = hist.get(k, 0) + 1
 
+    def emit_topo():
+        """premise of the order theorems (Fac/TopoOrder.v) where it is observable: the order in which ftran listed its results"""
+        if st["dump"] is not None and st["orders"] and st["cur"] is not None:
+            qid = "%s.T%d" % (c.cid, st["nl"])
+            st["nl"] += 1
+            luq.append("\n".join(["Q %s topo %d %d" % (qid, len(st["cur"]), len(st["orders"])), st["dump"]] + ["O " + " ".join(o) for _, o in st["orders"]]))
+            lumeta[qid] = ("topo", c, [si for si, _ in st["orders"]], len(st["cur"]))
+            # which listings are NOT in decreasing rank order (the order of the dense loop ILLfactor_ftranu): those come from ftranu3
+            crank = next(([int(x) for x in l.split()[1:]] for l in st["dump"].split("\n") if l.startswith("CRANK")), None)
+            for _, o in st["orders"]:
+                try:
+                    rk = [crank[int(j)] for j in o]
+                    bump("solve-order/ftran-listing/" + ("decreasing-rank(dense-loop-order)" if rk == sorted(rk, reverse=True) else "other(depth-first,ftranu3)"))
+                except Exception:
+                    bump("solve-order/ftran-listing/unreadable")
+        st["orders"] = []
+
     def flush():
         """emit the query for the current matrix state"""
         emit_lu()
+        emit_topo()
         mat, claim = st["cur"], st["claim"]
         if mat is None or (not st["checks"] and claim is None):
             st["checks"], st["idx"], st["claim"], st["bad"] = [], [], None, False
@@ -594,6 +617,8 @@ def judge_component(ck, c, toks, qlist, qmeta, hist, pybad, updq, updmeta, luq=N
                     ck.violation("solve_index_%s.txt" % c.cid, c.text(), "%s returned a sparse vector with %s index" % (kind, "an out-of-range" if t[1] == "1" else "a duplicate"), match=dict(kind="solve-index"))
                     continue
                 kk = "FT" if kind == "FTRAN" else "BT"
+                if kk == "FT" and getattr(t, "xord", None) is not None and st["dump"] is not None:
+                    st["orders"].append((si, t.xord))
                 screen(kk, payload, t[2:], si)
                 st["checks"].append((kk, payload, t[2:]))
                 st["idx"].append(si)
@@ -1057,6 +1082,17 @@ def main():
             nlu_ok += 1
             if dk.startswith("dense-kernel>25"):
                 nlu_dense += 1
+        elif kind == "topo":
+            _, _, sis, n = meta
+            if not a or len(a) != len(sis):
+                ck.violation("model_%s.txt" % lq, c.text(), "model driver gave no answer for the order check %s (%s)" % (lq, a), no_input=True)
+                continue
+            for f, si in zip(a, sis):
+                bump("solve-order/ftran-listed-order-topological=%s/%s" % (f, "n<=20" if n <= 20 else "n>20"))
+                if f != "1":
+                    ck.violation("order_%s_%d.txt" % (c.cid, si), c.text() + "# step %d\n" % si,
+                                 "the order in which mpq_ILLfactor_ftran lists its result is not a topological order of the dumped U (a column handled later has an entry in the pivot row of a "
+                                 "column handled before it): the premise of ftranu_order_irrelevant fails for the U pass (%dx%d, step %d)" % (n, n, si), match=dict(kind="solve-order"))
         elif kind == "lusing":
             _, _, nsing, singr, singc, hdr, n, hasx = meta
             head = c.text() + "# singular report: nsing %d rows %s columns %s; %s\n" % (nsing, singr, singc, hdr)
